@@ -524,8 +524,10 @@ class ArrayWeighting(Weighting):
     def __hash__(self):
         """Return ``hash(self)``."""
         # TODO: Better hash for array?
+        # `array` can be a native `Tensor` (stored as-is), which has no
+        # `tobytes` method
         return hash((super(ArrayWeighting, self).__hash__(),
-                     self.array.tobytes()))
+                     np.asarray(self.array).tobytes()))
 
     def equiv(self, other):
         """Return True if other is an equivalent weighting.
